@@ -152,6 +152,9 @@ impl Property for C05 {
     fn id(&self) -> &'static str {
         "C05"
     }
+    fn regimes(&self) -> &'static str {
+        crate::gen::REGIMES_FAMILY
+    }
     fn rule(&self) -> String {
         "proptest over the certified families: F1 = 1..3 exponential decays with consecutive tau ratio >= 3 and optional offset (quadratically spaced samples over 3..5 tau_max), F2 = Gaussian peak + decay + offset on [0,10], F3 = single decay + offset; N in 30..200, |c| in [0.5,5] with random signs, start = truth·(1 ± <=3%), noiseless or Gaussian noise of relative RMS 1e-6..1e-3, weights none or positive with ratio <= 10, S in 1..4; noisy instances are judged only inside the identifiability premise (predicted relative standard deviation of every nonlinear parameter <= 3 %, computed by the oracle from truth, sigma and weights; others are counted as outside-identifiability-premise); builder-made and hand-written, f64 (all claims) and f32 (success and reproduction to 1e-3 only), default optimizer settings. Oracle: fit is Ok; noiseless data reproduced to 1e-10 (relative); weighted SSQ(alpha_hat, C_hat) <= SSQ(alpha*, c*)(1+1e-9); with noise the cosine between the residual and every column of the oracle's Kaufman Jacobian at the returned point <= 4e-4. Non-trivial: start != truth; thresholds are calibrated and frozen, measured maxima are reported as observed_maxima".into()
     }
